@@ -128,6 +128,7 @@ type Exec struct {
 	pkgInit   map[*ssa.Package]int // 0 none, 1 running, 2 done
 	lenient   int                  // >0 while running package initialisers
 	mapOrder  bool
+	oneSched  bool
 	sched     *Sched
 	cur       *Thread
 	termID    string // assertion id for non-termination
